@@ -193,8 +193,8 @@ reg("C04", "c04", [("nonlinear", "plain", 1)], "exploration",
     level_note="Trusts vlib/nlfam.py (function families with analytic gradients/Hessians) and numpy.",
     design_ref="4/C04")
 
-reg("C09", "c09", [("histories", "plain", 1)], "exploration",
-    rule="[coneqp/qp calls without inequality constraints are generated as well.] [every verdict must meet the effective feastol/abstol/reltol in the solver's own accuracy fields; for cp/cpl the start point returned by F() must be left untouched.] Hypothesis draws a history of 2-8 steps over all ten entry points (conelp, coneqp, lp, qp, socp, sdp, cpl, cp, gp, "
+reg("C09", "c09", [("histories", "plain", 15), ("refinement", "plain", 1)], "exploration",
+    rule="[part refinement: planted cone LPs/QPs through conelp/coneqp/lp/qp with a counting user KKT solver (wrapping misc.kkt_ldl) and refinement = 0, 1, 2 and absent, per call or global: the number of solve calls after the first main-loop factorization must grow linearly with the option and the absent option must equal the documented default (0 without q/s cones, 1 otherwise).] [coneqp/qp calls without inequality constraints are generated as well.] [every verdict must meet the effective feastol/abstol/reltol in the solver's own accuracy fields; for cp/cpl the start point returned by F() must be left untouched.] Hypothesis draws a history of 2-8 steps over all ten entry points (conelp, coneqp, lp, qp, socp, sdp, cpl, cp, gp, "
          "op.solve), each call on its own generated problem: set/delete a key of the global solvers.options, call with or "
          "without a per-call options= dictionary (incl. the empty dictionary), call with an invalid option value (global or "
          "per-call), run 2-4 calls concurrently in threads (switch interval 1e-6), loose-vs-tight tolerance pair. Every "
